@@ -9,6 +9,7 @@ import M3d.Lemmas.SubdivVolume
 import M3d.Lemmas.BlurIter
 import M3d.Lemmas.ArapOp
 import M3d.Lemmas.DeformTargets
+import M3d.Lemmas.ArapLin
 /-!
 # C10 — mesh processing keeps closed oriented manifolds closed, oriented, manifold
 
@@ -534,5 +535,83 @@ example :
   decide
 
 end Arap
+
+/-! ## `ARAP`: the linear step reproduces a rigid motion (one weight table for matrix and right-hand side) -/
+
+section ArapLin
+open M3d.ArapOp M3d.ArapLin
+
+/-- **`arap_rigid_motion_solves_linear_step`** — "deformation … reproduces a rigid motion when the
+constraints are one".  Every iteration of `ARAP.deformMap` solves
+`squeezedMatrix · x = Squeeze(Targets(rotations)) + SqueezeDelta()` and returns `Unsqueeze(x)`.  For
+EVERY adjacency-with-weights table `rows` (cotangent, |cotangent|, uniform, anything; symmetric or
+not), every mesh position `p`, every motion `x ↦ R x + t` (`R` any matrix, so in particular every
+rotation) and every handle set whose targets are the images of the handles, with all rotations `R`:
+
+1. the operator applied to the squeezed rigid image `y = R p + t` IS the right-hand side
+   (`applyOp … (Squeeze y) = rhs … (Targets(R,…,R))`), where
+2. `Apply` is the matrix `LinSolve` factorises (row of `squeezedMatrix` · `v` = row of `Apply(v)`), and
+3. `Unsqueeze(Squeeze y) = y`;
+
+so the rigid image is an exact solution of the linear step, hence (4.) whatever `solve` returns a
+solution of the system, if the system has only one, the step returns exactly the rigid image.
+The weights cancel only because `Targets`, `Apply`/`squeezedMatrix` and `SqueezeDelta` read the
+SAME table (the `linear` scheme of `NewARAPWeighted`) — see the `example` below for the
+right-hand side built from the other table (seeded change C10-8).  `2 ≠ 0`: `Targets` halves the
+weights. -/
+theorem arap_rigid_motion_solves_linear_step {K : Type} [Field K] (h2 : (2 : K) ≠ 0) (n : Nat)
+    (rows : Nat → List (Nat × K)) (p : Nat → V3 K) (R : Mat3 K) (t : V3 K)
+    (cons : List (Nat × V3 K)) (hc : (keys cons).Nodup)
+    (hk : ∀ kv ∈ cons, kv.2 = rigid R t (p kv.1))
+    (hrows : ∀ i, i < n → ∀ nw ∈ rows i, nw.1 < n) :
+    let op := newOp n cons
+    let y := (List.range n).map fun i => rigid R t (p i)
+    applyOp op rows (squeeze op V3.zero y) = rhs op rows (targets n rows p (fun _ => R)) ∧
+      (∀ v : List (V3 K), (matrix op rows).map (fun mr => rowDot mr (vecFn v)) = applyOp op rows v) ∧
+      unsqueeze op V3.zero (squeeze op V3.zero y) = y ∧
+      (∀ x : List (V3 K), (∀ x', applyOp op rows x' = applyOp op rows x → x'.length = x.length → x' = x) →
+        applyOp op rows x = rhs op rows (targets n rows p (fun _ => R)) → x.length = op.s2f.length →
+        unsqueeze op V3.zero x = y) := by
+  intro op y
+  have h1 := linear_step_rigid h2 n rows p R t cons hc hk hrows
+  have h3 := unsqueeze_squeeze_rigid n (fun i => rigid R t (p i)) cons hc hk
+  refine ⟨h1, fun v => matrix_is_apply op rows v, h3, ?_⟩
+  intro x huniq hx hlen
+  have : squeeze op V3.zero y = x := by
+    apply huniq
+    · rw [hx]; exact h1
+    · rw [hlen]; simp [squeeze]
+  rw [← this]; exact h3
+
+/-- **`arap_energy_zero_at_rigid_image`**: the ARAP energy (`ARAP.energy`, the convergence test of
+`deformMap`) of a rigid image with the rotation of the motion at every vertex is exactly zero, for
+every weight table — the rigid image is a global minimiser whenever the weights are non-negative. -/
+theorem arap_energy_zero_at_rigid_image {K : Type} [Field K] (n : Nat) (rows : Nat → List (Nat × K))
+    (p : Nat → V3 K) (R : Mat3 K) (t : V3 K) :
+    energy n rows p (fun i => rigid R t (p i)) (fun _ => R) = 0 := energy_rigid n rows p R t
+
+/-- Non-vacuity and separation.  A triangle fan of four vertices (vertex 0 adjacent to 1, 2, 3; the
+others to 0 and to each other as in a tetrahedron) with `linear = uniform` weights (`1`) and a
+rotation table that differs (`2` on the edges at vertex 0); `R` = the quarter turn about `z`,
+`t = (1, 0, 0)`, handle = vertex 3 on its image.  With `Targets` reading the linear table the
+rigid image solves the step; with `Targets` reading the rotation table (seeded change C10-8) the
+right-hand side is another vector, so the rigid image no longer solves the system. -/
+example :
+    let lin : Nat → List (Nat × Rat) := fun i =>
+      [[(1, 1), (2, 1), (3, 1)], [(0, 1), (2, 1), (3, 1)], [(0, 1), (1, 1), (3, 1)], [(0, 1), (1, 1), (2, 1)]].getD i []
+    let rotT : Nat → List (Nat × Rat) := fun i =>
+      [[(1, 2), (2, 2), (3, 2)], [(0, 2), (2, 1), (3, 1)], [(0, 2), (1, 1), (3, 1)], [(0, 2), (1, 1), (2, 1)]].getD i []
+    let p : Nat → V3 Rat := fun i => [⟨0, 0, 0⟩, ⟨1, 0, 0⟩, ⟨0, 2, 0⟩, ⟨0, 0, 3⟩].getD i ⟨0, 0, 0⟩
+    let R : Mat3 Rat := ⟨0, -1, 0, 1, 0, 0, 0, 0, 1⟩
+    let t : V3 Rat := ⟨1, 0, 0⟩
+    let cons : List (Nat × V3 Rat) := [(3, rigid R t (p 3))]
+    let op := newOp 4 cons
+    let y := (List.range 4).map fun i => rigid R t (p i)
+    applyOp op lin (squeeze op V3.zero y) = rhs op lin (targets 4 lin p (fun _ => R)) ∧
+      applyOp op lin (squeeze op V3.zero y) ≠ rhs op lin (targets 4 rotT p (fun _ => R)) ∧
+      energy 4 lin p (fun i => rigid R t (p i)) (fun _ => R) = 0 := by
+  decide +kernel
+
+end ArapLin
 
 end M3d.C10
